@@ -10,10 +10,10 @@ from verdict import RULES  # noqa: E402
 
 LEVEL_TEXT = {
     "C01": "Theorems (all inputs of the model): the generated impl has one method per source fn, each body is `f([self,] own params in order)[.await]`, and under the C16 conditions its evaluation in the mini-semantics is exactly one call of f with that receiver and the arguments in declared order. Tie: token-exact correspondence with the real macro on the corpus + predicate on the implementation's output.",
-    "C02": "Theorems: the token-level module/impl splitter is lossless (any token sequence inside unknown items and fn bodies survives) and the fn/mod/impl expansion starts with / embeds the source tokens, outside the known printer-normalisation class. Tie: pure token comparison of recorded input vs output.",
-    "C03": "Partial: theorems cover the macro's obligations on the emitted signature (types, receiver, qualifiers, lifetimes, no parameter declared twice, every bound of a where predicate on the dependency carried to `Self:` under that predicate's `for<..>` binder); rustc acceptance itself is sampled by compiling the clean corpus (compile probe; three recorded findings F3, F22, F24 announced with their witnesses).",
+    "C02": "Theorems: the token-level module/impl splitter is lossless (any token sequence inside unknown items and fn bodies survives) and the fn/mod/impl expansion starts with / embeds the source tokens, outside the known printer-normalisation class. Tie: pure token comparison of recorded input vs output; macro_rules-written functions and modules (expr / block / ty fragments: invisible groups) compiled and run by the run probe.",
+    "C03": "Partial: theorems cover the macro's obligations on the emitted signature (types, receiver, qualifiers, lifetimes, no parameter declared twice, every bound of a where predicate on the dependency carried to `Self:` under that predicate's `for<..>` binder); rustc acceptance itself is sampled by compiling the clean corpus (compile probe; seven recorded findings F3, F22, F24, F26-F29 announced with their witnesses); under the per-record field check of coq/Tie.v the bound lists and classifications the theorems speak about are the predicate's own tokens (c03_bounds_are_the_predicates_own_tokens).",
     "C04": "Theorems (token level): impl header = EntraitT: Sync [+ Send iff some receiver is by value] + 'static, self type by mock setting and the mock derivations on the trait exactly when the impl is restricted to Impl<T> (the mock types get their impls from them), `Self: <exactly the declared bounds, in order>` (none when none declared). That rustc applies such an impl exactly to the types satisfying those bounds is assumption S3, probed on every run (harness/sem_probe.py: accept/reject clients per bound placement, receiver order, Sync/Send/'static). Tie: header projection, token-exact.",
-    "C05": "Theorems: concrete deps yield the leaf-trait shape (impl for C calling the fn; nested entrait invocation on the trait) and the composed (nested) expansion forwards Impl<T> to T (by value through into_inner for by-value receivers). Tie: nested record linked to the outer one; run-time differential clients and availability probes (Impl<C>, hand-written Other, Impl<Nope> rejected).",
+    "C05": "Theorems: concrete deps yield the leaf-trait shape (impl for C calling the fn; nested entrait invocation on the trait) and the composed (nested) expansion forwards Impl<T> to T (by value through into_inner for by-value receivers). Tie: nested record linked to the outer one; run-time differential clients (incl. a dependency type that arrives as a macro_rules `ty` fragment) and availability probes (Impl<C>, hand-written Other, Impl<Nope> rejected).",
     "C06": "Theorems: Impl<T> forwards every method once to the provider selected by delegate_by with the method's own parameters in order (mini-semantics of the forwarding body, Sem2), bound on T as selected. Tie: impl projection; run-time differential clients; accept/reject availability probes (provider / none / wrong way / not Sync / typed receiver).",
     "C07": "Theorems: delegation-target / selector trait shapes and the static/dynamic call shapes; impl blocks call `Self::m(__impl, ..)`. Tie: projection on both sides.",
     "C08": "Theorems over every body token list: the trait's methods are exactly the splitter's visible fns with body, in order, and for bodies that are sequences of well-delimited items the chunks are those items; the trait is re-exported beside the module with the requested visibility and denotes the scope it would have if declared there (Vis.v). Tie: method list vs syn's item parser and the generator's ground truth; visibility projection.",
@@ -24,7 +24,7 @@ LEVEL_TEXT = {
     "C13": "Theorems: emitted trait visibility tokens = requested (fn, trait, delegation target); for modules the trait inside the module carries module_vis(requested) and the re-export the requested tokens, and module_vis(v) read inside the module denotes the scope v denotes at the invocation site (Vis.v, all sites / names / accepted visibilities). Tie: visibility projection; the trait named from four scopes incl. another crate (accept/reject).",
     "C14": "Theorems: the tokens the macro adds contain no `dyn`/`Box` unless dynamic dispatch was requested. Allocation behaviour of rustc's codegen is assumption S6, probed with a counting allocator (direct call vs call through the trait). Tie: generated-region projection.",
     "C15": "Theorems: expand never returns Panic (every panic site of the Rust code is a model outcome), documented misuses give their message. Tie: outcome class + message on the malformed stream through real rustc.",
-    "C16": "Theorems over all pattern lists (no length bound): emitted parameters are plain identifiers, pairwise distinct and never the fn's name as identifiers (a raw identifier `r#x` is the identifier `x`), forwarded positionally; the name generators terminate (pigeonhole). Tie: parameter-name projection; exhaustive small lists through the real macro.",
+    "C16": "Theorems over all pattern lists (no length bound): emitted parameters are plain identifiers, pairwise distinct and never the fn's name as identifiers (a raw identifier `r#x` is the identifier `x`), forwarded positionally; the name generators terminate (pigeonhole). Tie: parameter-name projection; exhaustive small lists through the real macro; name resolution of forwarded identifiers under macro_rules hygiene (spans) by compiled programs of the semantic probe.",
     "C17": "Theorems on the token-level option parser: bare = `= true`, `= false` = omitted for no_deps/export, order independence for distinct keys, per-target accepted sets, variant = option shorthand. Tie: metamorphic groups through the real macro.",
     "C18": "Theorems: fn attributes stay on the fn, generated items carry only macro-owned/async_trait/automock attributes, parameter attributes stripped, trait-method attributes mirrored, the attributes of a module/impl fn's methods are exactly its cfgs; for every build a method is compiled iff its function is (Cfg.v). Tie: attribute projection.",
     "C19": "Theorems: every bound, path and attribute the macro adds is a lifetime, a macro-bound name or an absolute `::core`/`::entrait`/`::mockall` path. Tie: path-root projection; hostile scopes, macro_rules invocation and a #![no_std] crate compiled and run by the probe.",
